@@ -78,8 +78,8 @@ def random_case(rng):
             ops.append({"op": "empty"})
     for _ in range(rng.randint(1, 4)):
         m = len(ops)
-        o = rng.choice(["add", "sub", "add", "sub", "neg", "roundtrip"])
-        if o in ("add", "sub"):
+        o = rng.choice(["add", "sub", "add", "sub", "neg", "roundtrip", "relist"])
+        if o in ("add", "sub", "relist"):
             ops.append({"op": o, "i": rng.randint(1, m), "j": rng.randint(1, m)})
         else:
             ops.append({"op": o, "i": rng.randint(1, m)})
